@@ -348,6 +348,50 @@ pub fn main(opts: &Opts) -> i32 {
         let (a, b, c, d) = (1 + r.below(5000) as u32, 1 + r.below(300) as u32, 1 + r.below(5000) as u32, 1 + r.below(300) as u32);
         log.push3(format!("shift {a:x} {b:x} {c:x} {d:x}"), shift_real(a, b, c, d), "?".into());
     }
+    // two deterministic extra projects (rounds 100, 101): multi-byte text in every string literal (anchored
+    // multi-byte tokens followed by further anchors on the line); a comment after every separator
+    for (round, kind) in [(100u64, "mb"), (101u64, "sep")] {
+        let corpus2 = corpus.clone();
+        let h = std::thread::Builder::new()
+            .stack_size(256 << 20)
+            .spawn(move || {
+                let mut n = 0u64;
+                let v: emitctx::FileSet = corpus2
+                    .iter()
+                    .map(|(name, src)| {
+                        let m = if kind == "mb" {
+                            emitctx::mb_strings_mutant(src, name)
+                        } else {
+                            emitctx::separator_mutant(src, name, true).or_else(|| emitctx::separator_mutant(src, name, false))
+                        };
+                        match m {
+                            Some(m) => {
+                                n += 1;
+                                (name.clone(), m)
+                            }
+                            None => (name.clone(), src.clone()),
+                        }
+                    })
+                    .collect();
+                (v, n)
+            })
+            .unwrap();
+        let (v, n) = h.join().unwrap();
+        log.add(&format!("mutated_files_{kind}"), n);
+        let files: emitctx::FileSet = v.into_iter().take(limit).collect();
+        match run_project(files, round, seed, nvar, render_every) {
+            Ok((lines, stats)) => {
+                for l in lines {
+                    log.push3(l.op, l.imp, l.oracle);
+                }
+                for (k, v) in stats {
+                    log.add(&k, v);
+                }
+                log.count("projects");
+            }
+            Err(e) => log.count(&format!("project_failed_{e}")),
+        }
+    }
     for round in 0..=rounds {
         // round 0: the testcases themselves; round k: every file replaced by a mutant
         let files: emitctx::FileSet = if round == 0 {
